@@ -137,7 +137,9 @@ class ModelsEmitter:
             import traceback
 
             logger.error(f"Traceback: {traceback.format_exc()}")
-            return None
+            # A model file that could not be written must fail the generation: returning None here made
+            # generate() report success with a module missing that models/__init__.py still imports
+            raise
 
     def _generate_init_py_content(self) -> str:  # Removed generated_files_paths, models_dir args
         """Generates the content for models/__init__.py."""
